@@ -131,6 +131,9 @@ def run(v, tier, seed):
             samples += [{"kind": "behaviour replayed", "prefer_writers": p, "steps": s} for s in smp]
             for r in rows:
                 if r.get("summary"): continue
+                if r.get("monitor_drift") and not r.get("violations"):
+                    v.drift += 1
+                    if v.drift <= 3: vlib.log("DRIFT property=C18 behaviour %s: %s" % (r.get("behaviour"), "; ".join(r["monitor_drift"])[:300]))
                 if r.get("violations"): v.violation("replay of a TLC behaviour: " + "; ".join(r["violations"]), r, tag="replay%d" % int(p))
                 elif r.get("drift"):
                     v.drift += 1
@@ -142,6 +145,9 @@ def run(v, tier, seed):
             tot["explore"] += summ["executions"]; tot["yields"] += summ["yields"]; tot["events"] += summ["events"]; tot["trace_lines"] += nlines; tot["traces"] += summ["traces_written"]
             for r in rows:
                 if r.get("summary"): continue
+                if r.get("monitor_drift") and not r.get("violations"):
+                    v.drift += 1
+                    if v.drift <= 3: vlib.log("DRIFT property=C18 random schedule (seed %s): %s" % (r.get("seed"), "; ".join(r["monitor_drift"])[:300]))
                 if r.get("violations"): v.violation("random schedule: " + "; ".join(r["violations"]), r, tag="explore%d" % int(p))
                 if r.get("known"): v.known_finding("F8timed", r["known"][0])
             if other:
